@@ -10,10 +10,15 @@ import (
 	"os"
 	"path/filepath"
 	"strings"
+	"sync/atomic"
+	"syscall"
 	"testing"
+	"time"
 
 	zxcvbn "github.com/nbutton23/zxcvbn-go"
 	"github.com/whawty/auth/verifconcrete"
+
+	lib "github.com/whawty/auth/store"
 )
 
 type pCase struct {
@@ -159,6 +164,43 @@ func TestVerifPolicy(t *testing.T) {
 		if err := api.Init("root", pc.strong); err != nil {
 			bad("init:strong-password-refused:"+pc.cond, err.Error())
 		}
+		// the policy belongs to the agent, not to the configuration in use: after reloads (same file, then a new
+		// default) weak passwords are still refused on every write path, strong ones still accepted
+		for round, def := range []uint{1, 2} {
+			var seen int32
+			oldSink := verifSink
+			verifSink = func(ev string, args ...interface{}) {
+				if ev == "reload.ok" || ev == "reload.fail" {
+					if d, ok := args[1].(*lib.Dir); ok && d != nil && d.BaseDir == base {
+						atomic.AddInt32(&seen, 1)
+					}
+				}
+			}
+			os.WriteFile(cfg, []byte(concrete.ConfigYAML(base, def, sets, []uint{1, 2})), 0600)
+			syscall.Kill(os.Getpid(), syscall.SIGHUP)
+			for i := 0; i < 3000 && atomic.LoadInt32(&seen) == 0; i++ {
+				time.Sleep(time.Millisecond)
+			}
+			verifSink = oldSink
+			if atomic.LoadInt32(&seen) == 0 {
+				bad("reload:not-performed:"+pc.cond, "no reload event within 3 s")
+				break
+			}
+			tag := fmt.Sprintf("after-reload-%d:", round+1)
+			if err := api.Add("weak"+fmt.Sprint(round), pc.weak, false); err == nil {
+				bad(tag+"add:weak-password-stored:"+pc.cond, pc.weak)
+			}
+			if err := api.Update("root", pc.weak); err == nil {
+				bad(tag+"update:weak-password-stored:"+pc.cond, pc.weak)
+			}
+			if ok, _, _, _ := api.Authenticate("root", pc.strong); !ok {
+				bad(tag+"refused-update-changed-password:"+pc.cond, "root can no longer log in with the password of the last accepted write")
+			}
+			if err := api.Add("strong"+fmt.Sprint(round), pc.strong+"!", false); err != nil {
+				bad(tag+"add:strong-password-refused:"+pc.cond, err.Error())
+			}
+		}
+		os.WriteFile(cfg, []byte(concrete.ConfigYAML(base, 1, sets, []uint{1, 2})), 0600)
 	}
 	var vs []viol
 	for _, v := range viols {
